@@ -404,6 +404,29 @@ def run(tier, seed):
                 rep.violation("C04:python-equal-value-served-from-other-key", "after a call with %r, a call with %r did not execute the body (%d executions): it was served another call's result" % (v1, v2, outs[1][1]), meta)
             elif outs[1][2] != canon_repr(v2):
                 rep.violation("C04:body-got-other-values", "called with %r (after a call with %r) the body received %s" % (v2, v1, outs[1][2]), meta)
+        # dictionaries spelled like the tagged form of a date / datetime: the argument normalization turns them into that
+        # date / datetime (theorem C04_tagged_dictionary_is_the_date_refuted shows the encodings coincide), so the call binds
+        # the normalized value: same key as the date, and the body receives the date
+        npairs["tagged_dictionaries"] = 0
+        for tagged, value in (({"_mementoType": "date", "iso8601": "2020-01-02"}, datetime.date(2020, 1, 2)),
+                              ({"_mementoType": "datetime", "iso8601": "2020-01-02T03:04:05"}, datetime.datetime(2020, 1, 2, 3, 4, 5)),
+                              ({"iso8601": "2021-05-06T00:00:00+00:00", "_mementoType": "datetime"}, datetime.datetime(2021, 5, 6, tzinfo=utc))):
+            f = sigmod.FUNCS["s1"]
+            try:
+                f.forget(a=value)
+                tr.clear()
+                f(a=tagged)
+                bodies = [e for e in tr.events if e[0] == "body"]
+                hk = f.fn_reference().with_args(a=tagged).arg_hash
+                hv = f.fn_reference().with_args(a=value).arg_hash
+                npairs["tagged_dictionaries"] += 1
+                meta = {"fn": "s1", "passed": repr(tagged), "normalized": repr(value)}
+                if hk != hv:
+                    rep.violation("C04:tagged-dictionary-key", "a dictionary spelled like the tagged form of %r has key %s, the value itself %s" % (value, hk, hv), meta)
+                if len(bodies) != 1 or not same_value(bodies[0][2].get("a"), value):
+                    rep.violation("C04:body-got-other-values", "called with %r the body received %r (the key is that of %r)" % (tagged, bodies[0][2].get("a") if bodies else None, value), meta)
+            except Exception as e:
+                rep.violation("C04:tagged-dictionary-raised", "%s: %s" % (type(e).__name__, str(e)[:150]), {"passed": repr(tagged)})
         # the same on a filesystem store with a memory cache that is re-opened between the calls (the first call's record is
         # re-read from disk before the twin value is used)
         from . import runner_cases as _R
